@@ -171,6 +171,8 @@ theorem uncompTable_dot_first : ∀ p ∈ uncompTable, dot ∉ p.1.tail := by de
 
 theorem uncompTable_starts_with_dot : ∀ p ∈ uncompTable, p.1.head? = some dot := by decide
 
+theorem uncompTable_repl_ne : ∀ p ∈ uncompTable, p.1 ≠ p.2 := by decide
+
 theorem uncompTable_no_slash : ∀ p ∈ uncompTable, slash ∉ p.1 ∧ slash ∉ p.2 ∧ p.1 ≠ [] := by decide
 
 /-- At most one built-in entry matches a given name, hence "the first match" is "the match". -/
